@@ -55,9 +55,9 @@ def _worker_body(pid, tier, wseed, n_examples, part):
               suppress_health_check=[HealthCheck.too_slow, HealthCheck.data_too_large, HealthCheck.large_base_example])
     @given(st.data())
     def campaign(data):
-        if len(res["violations"]) >= max_viol:
-            return          # enough counter-examples collected: skip the rest of the budget
         trace = gen(D(data), tier)
+        if len(res["violations"]) >= max_viol:
+            return          # enough counter-examples collected: draw (keeps generation consistent) but do not run
         out = run(trace)
         res["evaluations"] += 1
         meta = trace.get("meta", {}) if isinstance(trace, dict) else {}
@@ -153,7 +153,7 @@ def run_replay_file(path, default_pid):
     pid = doc.get("prop", default_pid)
     prop = load_prop(pid)
     part = doc.get("part")
-    run = prop.PARTS[part][1] if part else prop.run
+    run = prop.PARTS[part][1] if part and part in getattr(prop, "PARTS", {}) else prop.run
     out = run(doc["trace"])
     return doc, out
 
@@ -305,6 +305,8 @@ def _main_campaign(prop, pid, tier, seed, t0):
     # ---- 3. shrink & report (one replay file per distinct clause, at most 4)
     seen_clause = set()
     for part, tr, out in raw_violations:
+        if part not in getattr(prop, "PARTS", {}):
+            part = None         # results of extra_parts() are judged by the main run()
         key = (part, out["clause"])
         if key in seen_clause or len(seen_clause) >= 4:
             continue
